@@ -479,7 +479,17 @@ def run_cell(cell, seed, tmpdir, case=None):
         # tracer drags the whole path/tracer object graph along (seconds per received pulse):
         # the layered cells are kept to one single-particle event on two antennas
         light = tn == "Layered"
-        gen, gd = make_generator(gk, rng, tmpdir, ice, light)
+        gen0, gd = make_generator(gk, rng, tmpdir, ice, light)
+
+        class GenWrap:
+            """remembers the last event so that a component failure can be reproduced outside the kernel"""
+            last = None
+            count = property(lambda self: gen0.count)
+
+            def create_event(self):
+                self.last = gen0.create_event()
+                return self.last
+        gen = GenWrap()
         ants = [Antenna(position=(0, 0, -150), noisy=False), Antenna(position=(40, 10, -60), noisy=False),
                 Antenna(position=(-30, 5, -300), noisy=False)][:2 if light else 3]
         cont = ants
@@ -579,6 +589,22 @@ def run_cell(cell, seed, tmpdir, case=None):
                 return stats, ("real components %s: %s" % (desc, bad), desc)
     except Exception as e:
         desc["error"] = type(e).__name__
+        # is it the component itself that fails, independently of the kernel?  (ray tracer used directly
+        # on the same vertex / antenna position)
+        try:
+            for p in (gen.last or []):
+                for a in ants:
+                    try:
+                        rt = tr(p.vertex, a.position, ice_model=ice)
+                        if rt.exists:
+                            list(rt.solutions)
+                    except Exception as e2:
+                        if type(e2) is type(e) and str(e2) == str(e):
+                            desc["component_failure"] = {"tracer": tn, "vertex": [float(x) for x in p.vertex],
+                                                         "antenna": [float(x) for x in a.position]}
+                            raise StopIteration
+        except StopIteration:
+            pass
         return stats, ("real components %s: EventKernel.event raised %s: %s" % (desc, type(e).__name__, str(e)[:200]), desc)
     return stats, None
 
@@ -599,7 +625,19 @@ def run_matrix(ctx, tmpdir):
                 stats[k] += v
             stats["slowest"] = sorted(stats["slowest"] + [(round(_time.time() - t0, 2), key)], reverse=True)[:3]
             if bad:
-                ctx.fail(key, bad[0], {"kind": "matrix", "cell_index": ci, "thorough": ctx.thorough, **bad[1]})
+                cf = bad[1].get("component_failure")
+                if cf:
+                    # the shipped ray tracer itself raises for this geometry when used directly: a defect of
+                    # that tracer's numerics (property C01), which event() can only propagate.  One key per
+                    # (tracer, exception) class; a systematic failure (> 2 cells) is reported under a distinct key.
+                    stats.setdefault("component_failures", []).append(cf)
+                    nfail = sum(1 for x in stats["component_failures"] if x["tracer"] == cf["tracer"])
+                    fkey = "component-raises:%sRayTracer:%s" % (cf["tracer"], bad[1]["error"])
+                    if nfail > 2:
+                        fkey += ":systematic:" + key
+                    ctx.fail(fkey, bad[0], {"kind": "matrix", "cell_index": ci, "thorough": ctx.thorough, **bad[1]})
+                else:
+                    ctx.fail(key, bad[0], {"kind": "matrix", "cell_index": ci, "thorough": ctx.thorough, **bad[1]})
                 break
     return stats
 
@@ -623,7 +661,7 @@ def run(ctx):
         "propagate delays by tof); they are checked on the real components by the matrix run",
         "exceptions other than ValueError raised by components propagate out of event() and are not modelled"]
     import logging
-    logging.disable(logging.WARNING)
+    logging.disable(logging.CRITICAL)
     data = None
     try:
         files, data = gen_files(ctx.scratch)
@@ -741,7 +779,7 @@ def replay(ctx, obj):
         return 0 if good else 1
     if obj.get("kind") == "matrix":
         import logging
-        logging.disable(logging.WARNING)
+        logging.disable(logging.CRITICAL)
         cell = matrix_cells(obj["thorough"])[obj["cell_index"]]
         tmpdir = tempfile.mkdtemp(prefix="c10-", dir=ctx.scratch)
         st, bad = run_cell(cell, obj["cell_seed"], tmpdir)
